@@ -30,6 +30,37 @@ def conditions(fn, nodes=False):
                 if c.get('kind') == 'IfStmt' and len(c['inner']) == 2 and exits(c['inner'][1]):
                     cur = cur + [_txt(normal.negate(c['inner'][0]))]
             return
+        if k == 'SwitchStmt':
+            sel = n['inner'][0]
+            rec(sel, stack)
+            body = n['inner'][-1]
+            items = body.get('inner', []) if body.get('kind') == 'CompoundStmt' else [body]
+            out[id(body)] = stack
+            label_nodes = []
+            for it in items:
+                x = it
+                while x.get('kind') in ('CaseStmt', 'DefaultStmt'):
+                    if x.get('kind') == 'CaseStmt':
+                        label_nodes.append(x['inner'][0])
+                    x = x['inner'][-1]
+            cur = None          # None: not reachable by a label yet / after a break
+            for it in items:
+                x = it
+                fresh = None
+                while x.get('kind') in ('CaseStmt', 'DefaultStmt'):
+                    out[id(x)] = stack
+                    if x.get('kind') == 'CaseStmt':
+                        eq = {'kind': 'BinaryOperator', 'opcode': '==', 'type': {'qualType': 'int'}, 'inner': [sel, x['inner'][0]]}
+                        fresh = [_txt(eq)] if fresh is None else []      # several labels on one statement: a disjunction, not recorded
+                    else:
+                        fresh = [_txt(normal.negate({'kind': 'BinaryOperator', 'opcode': '==', 'type': {'qualType': 'int'}, 'inner': [sel, l_]})) for l_ in label_nodes] if fresh is None else []
+                    x = x['inner'][-1]
+                if fresh is not None:
+                    cur = fresh if cur is None else []          # fall-through from the previous case: nothing is known
+                rec(x, stack + (cur or []))
+                if x.get('kind') == 'BreakStmt' or (x.get('kind') == 'CompoundStmt' and x.get('inner') and x['inner'][-1].get('kind') in ('BreakStmt', 'ReturnStmt')) or x.get('kind') == 'ReturnStmt':
+                    cur = None
+            return
         if k == 'IfStmt':
             c = n['inner'][0]
             rec(c, stack)
